@@ -90,7 +90,8 @@ def levenshtein_distance_substring(source, target, sub_cost=1, ins_cost=1, del_c
 
     target = np.array(target)
     dist = np.ones((1 + len(target) + 1)) * float('inf')
-    dist[0] = 0
+    dist[:-1] = np.arange(len(target) + 1) * ins_cost
+    dist[-1] = dist[-2]
     for s in source:
         dist[1:-1] = np.minimum(dist[1:-1] + del_cost, dist[:-2] + (target != s) * sub_cost)
 
@@ -112,7 +113,8 @@ def levenshtein_alignment_substring(source, target, sub_cost=1, ins_cost=1, del_
     backtrack = np.ones((len(source) + 1, 1 + len(target) + 1))
     backtrack[0] = -1
     dist = np.ones((1 + len(target) + 1)) * float('inf')
-    dist[0] = 0
+    dist[:-1] = np.arange(len(target) + 1) * ins_cost
+    dist[-1] = dist[-2]
 
     for ii, s in enumerate(source):
         cost4sub = dist[:-2] + (target != s) * sub_cost
